@@ -209,12 +209,8 @@ def check_shape(ctx, fb):
         return
     # initial state [0, inp...]
     init = state_phi[4]
-    ok_init = False
-    if init[0] == "upd" and init[1].endswith("clone_from_slice") or True:
-        want0 = call("std::vec::from_elem", ("item", "ark_ff::AdditiveGroup::ZERO"), t)
-        for s in subterms(init):
-            if s[0] == "upd" and s[1].endswith("::clone_from_slice") and s[3] == (("slice", want0, mk_const("usize", 1), None), inp):
-                ok_init = True
+    want0 = call("std::vec::from_elem", ("item", "ark_ff::AdditiveGroup::ZERO"), t)
+    ok_init = init == ("with", want0, ("slice", mk_const("usize", 1), None), inp)
     if not ok_init:
         ctx.fail("R09-4", inst, "initial state is %s, specification [0; t] with lanes 1.. = input" % sh(init, 200), loc(hit))
         return
